@@ -33,7 +33,7 @@ def operand(g, kinds=("imm", "reg", "mem", "target")):
 
 def inst_line(g, addr, mnems=MNEMS):
     m = g.pick(mnems)
-    nb = g.int(1, 7)
+    nb = g.int(1, 7) if g.chance(0.9) else g.int(8, 15)      # `--insn-width` listings carry more than 7 bytes per line
     byts = "".join("%02x" % g.int(0, 255) for _ in range(nb))
     line = {"k": "inst", "indent": g.pick([2, 2, 2, 0, 1, 4, 8]), "addr": "%x" % addr, "bytes": byts,
             "pad": g.pick([max(0, 21 - 3 * nb), 0, 1, 5]), "mnem": m, "gap": 1, "ops": [], "annot": None, "comment": None}
